@@ -409,14 +409,14 @@ PROPS = {
         "runs": {
             "quick": [("walk", ["-profile", "failing", "-n", "6000"]), ("step", ["-profile", "timeouts", "-n", "400"]),
                       ("match", ["-profile", "c03", "-n", "5000", "-reps", "2"]), ("compile", ["-n", "1000"]),
-                      ("step", ["-profile", "failing", "-n", "4000"])],
-            "thorough": [("walk", ["-profile", "failing", "-n", "40000"]), ("step", ["-profile", "timeouts", "-n", "3000"]),
+                      ("step", ["-profile", "failing", "-n", "4000"]), ("timeouts", ["-n", "40"])],
+            "thorough": [("walk", ["-profile", "failing", "-n", "40000"]), ("step", ["-profile", "timeouts", "-n", "3000"]), ("timeouts", ["-n", "300"]),
                          ("step", ["-profile", "failing", "-n", "40000"]), ("match", ["-profile", "c03", "-n", "30000", "-reps", "2"]),
                          ("compile", ["-n", "6000"])],
         },
         "analyze": analyze_generic,
         "oracles": ["total", "errorSurfaced"],
-        "probes": [],
+        "probes": ["stopsWithError", "returns", "noPanic"],
         "rule": ENGINE_RULE,
     },
     "C08": {
@@ -601,7 +601,7 @@ PROPS = {
         },
         "analyze": analyze_generic,
         "oracles": ["total", "rule", "errSame"],
-        "probes": ["stopsWithError", "prompt", "noGoroutineLeak", "nothingLeftUnderLiveContext", "timeoutRoutedAsActionError", "noPanic"],
+        "probes": ["stopsWithError", "prompt", "noGoroutineLeak", "nothingLeftUnderLiveContext", "timeoutRoutedAsActionError", "noPanic", "returns"],
         "rule": ("scripts whose time is spent in interpreted code (empty loop, unbounded recursion, array churn, property churn, nested "
                  "arithmetic loops) under deadlines from already expired to 200 ms, with cancellation at a random moment, 1-16 concurrent "
                  "executions; every execution must end with an error within the deadline plus a generous slack (1.5 s, to stay clear of "
